@@ -149,6 +149,11 @@ func genLuaExec(seed uint64, tier, variant string) any {
 	for i, ng := 0, r.IntN(4); i < ng; i++ {
 		p.Ghosts = append(p.Ghosts, GhostSpec{Kind: "script-flush", Node: r.IntN(nodes), MinStep: r.IntN(120)})
 	}
+	if faulty && r.IntN(3) == 0 {
+		// a node that answers its next 1-3 commands with -LOADING (what a restarted server does): an error reply to
+		// EVALSHA that is not NOSCRIPT
+		p.Ghosts = append(p.Ghosts, GhostSpec{Kind: "loading", Node: r.IntN(nodes), Argv: []string{strconv.Itoa(1 + r.IntN(3))}, MinStep: r.IntN(120)})
+	}
 	if faulty {
 		for i, nf := 0, 1+r.IntN(3); i < nf; i++ {
 			f := FaultSpec{Kind: pick(r, "reset", "reset-after-exec", "reset-after-exec", "eof", "eof-mid-reply", "werr", "node-restart"), AtStep: r.IntN(150), NeedInflight: r.IntN(3) != 0, Pick: r.IntN(4), DurMs: pick(r, 100, 1500), Arg: r.IntN(500)}
@@ -561,12 +566,19 @@ func luaRun(t *testing.T, seed uint64, p *Plan, x luaX, out *Outcome) *luaEnv {
 			}
 		},
 		ghost: func(e *env, g GhostSpec) func(*sched.Sim) {
-			if g.Kind != "script-flush" {
-				bad(e, "unknown ghost kind %q", g.Kind)
-				return func(*sched.Sim) {}
-			}
 			addr := le.addrs[g.Node%len(le.addrs)]
-			return func(s *sched.Sim) { s.W.Ghost(addr, "SCRIPT", "FLUSH") }
+			switch g.Kind {
+			case "script-flush":
+				return func(s *sched.Sim) { s.W.Ghost(addr, "SCRIPT", "FLUSH") }
+			case "loading":
+				n := 1
+				if len(g.Argv) > 0 {
+					n, _ = strconv.Atoi(g.Argv[0])
+				}
+				return func(s *sched.Sim) { s.W.Nodes[addr].Loading = n }
+			}
+			bad(e, "unknown ghost kind %q", g.Kind)
+			return func(*sched.Sim) {}
 		},
 		extraCall: func(e *env, cl Client, cs CallSpec, ctx context.Context, rec *sched.CallRec) *CallResult {
 			if cs.Kind != "lexec" && cs.Kind != "lmulti" || len(cs.Cmds) == 0 {
@@ -715,6 +727,9 @@ func checkLuaExec(le *luaEnv) {
 				for _, ex := range exs {
 					name := strings.ToUpper(ex.Argv[0])
 					sha := name == "EVALSHA" || name == "EVALSHA_RO"
+					if sha && ex.Reply.IsErr() && strings.HasPrefix(ex.Reply.S, "LOADING") {
+						out.probe("evalsha-answered-with-another-error")
+					}
 					if sha && ex.Reply.IsErr() && strings.HasPrefix(ex.Reply.S, "NOSCRIPT") {
 						noscriptSeen = true
 					}
@@ -873,7 +888,7 @@ func checkLuaExec(le *luaEnv) {
 		out.probe("executed-but-unanswered")
 	}
 	for _, g := range s.Ghosts {
-		if g.Done {
+		if g.Done && strings.HasPrefix(g.Name, "script-flush") {
 			out.probe("ghost-script-flush")
 			break
 		}
